@@ -421,7 +421,37 @@ def _dims(draw):
 
 
 @st.composite
+def _staircase(draw):
+    """lexicographic levels written the natural way: 3-7 rows, every row owning its own few columns (staircase / diagonal),
+    values from a tiny set so that the largest value of one row equals the smallest of the next, rows sometimes empty or
+    fully overridden in between"""
+    nr = draw(st.integers(3, 7))
+    vals = draw(st.sampled_from([[1], [1], [1, 2], [2], [1, 2, 3], [3, 3, 5]]))
+    rows, width = [], 0
+    owners = []
+    for r in range(nr):
+        w = draw(st.sampled_from([0, 1, 1, 1, 2, 2, 3]))
+        owners.append((width, width + w))
+        width += w
+    width = max(width, 1)
+    for r, (a, b) in enumerate(owners):
+        row = [0] * width
+        for c in range(a, b):
+            row[c] = draw(st.sampled_from(vals)) * draw(st.sampled_from([1, 1, 1, -1]))
+        if draw(st.integers(0, 4)) == 0 and a > 0:
+            row[draw(st.integers(0, a - 1))] = draw(st.sampled_from(vals))      # overrides an earlier level's column
+        rows.append(row)
+    return rows
+
+
+@st.composite
 def shadow_case(draw):
+    if draw(st.integers(0, 7)) == 0:
+        a = draw(_staircase())
+        ax = draw(st.sampled_from([0, 0, 1]))
+        if ax == 1:
+            a = _transpose(a)
+        return {"a": a, "axis": ax}
     kind = draw(st.sampled_from(["1d/None", "1d/0", "2d/0", "2d/0", "2d/1", "2d/1", "2d/None", "3d/0", "3d/cfg"]))
     alias = draw(st.integers(0, 4)) == 0
     if kind.startswith("1d"):
